@@ -141,12 +141,18 @@ func (x *Exec) binInt(op token.Token, a, b Int) Val {
 	case token.AND_NOT:
 		return x.nmI(Int{W: w, S: s, T: "(bvand " + at + " (bvnot " + bt + "))"})
 	case token.EQL, token.NEQ:
+		if at == bt {
+			return Bool{C: op == token.EQL}
+		}
 		e := Bool{T: "(= " + at + " " + bt + ")"}
 		// remember var == const for substitution
 		if isPlainVar(a.T) && b.conc() {
-			e.EqVar, e.EqC = a.T, b.C
+			e.EqVar, e.EqC = a.T, b.uval()
 		} else if isPlainVar(b.T) && a.conc() {
-			e.EqVar, e.EqC = b.T, a.C
+			e.EqVar, e.EqC = b.T, a.uval()
+		}
+		if e.EqVar != "" && x.notEq[e.EqVar][e.EqC] {
+			return Bool{C: op != token.EQL}
 		}
 		if op == token.EQL {
 			return e
@@ -502,6 +508,22 @@ func (x *Exec) binop(op token.Token, a, b Val) Val {
 		if ia.L != nil && ia.L == ib.L {
 			return Bool{C: op == token.EQL}
 		}
+		// lazy node compared with a concrete value: ask only for that kind
+		if ia.L != nil && !ia.L.done && ib.L == nil {
+			if r, ok := x.lazyVsConcrete(ia.L, ib); ok {
+				if op == token.EQL {
+					return r
+				}
+				return not(r)
+			}
+		} else if ib.L != nil && !ib.L.done && ia.L == nil {
+			if r, ok := x.lazyVsConcrete(ib.L, ia); ok {
+				if op == token.EQL {
+					return r
+				}
+				return not(r)
+			}
+		}
 		a = x.resolve(ia)
 		b = x.resolve(ib)
 	}
@@ -648,4 +670,21 @@ func (x *Exec) binop(op token.Token, a, b Val) Val {
 		return Bool{C: !e}
 	}
 	panic(unsupported{fmt.Sprintf("binop %s on %T at %s", op, a, x.curPos)})
+}
+
+// lazyVsConcrete: l == c where c is a concrete interface value.
+func (x *Exec) lazyVsConcrete(l *Lazy, c Iface) (Bool, bool) {
+	if c.T == nil {
+		return Bool{C: x.lazyIs(l, kNull)}, true
+	}
+	k := jsonKindOfType(c.T)
+	if k < 0 {
+		// not a JSON type: never equal (and never a comparison panic, the
+		// dynamic types differ)
+		return Bool{C: false}, true
+	}
+	if !x.lazyIs(l, k) {
+		return Bool{C: false}, true
+	}
+	return Bool{}, false
 }
